@@ -186,7 +186,7 @@ func kindValue(kind string) (interface{}, bool) {
 func init() { register("C04", checkC04) }
 
 func checkC04(c *Ctx) error {
-	c.ruleText = "GenKinds.tla: the matrices of C04, each cell a template over free variables a, b, c instantiated with every tuple of 41 value kinds (10 for the third variable): 13 binary operators x kind x kind, !, chains; 8 index-read forms; index assignment container x index x value, assignment to literals' hashes and arrays, append; 13 member / iteration forms (field, missing and unexported field, value / pointer method, method with argument, nested field through nil pointer, index then field, field called, loops); 8 call forms (0-3 arguments, block, user function with too few / too many arguments, chained call); 40 built-in helper forms (len, raw, htmlEscape, jsEscape, toJSON, truncate with option kinds, range / between / until, groupBy, contentFor / contentOf, partial, inspect, debug, env, inflections) and 9 sink forms: about 105k cells. Oracle on the real code: Render returns output or an error; no panic, no hang. distinct_nontrivial = distinct (form, kinds) cells."
+	c.ruleText = "GenKinds.tla: the matrices of C04, each cell a template over free variables a, b, c instantiated with every tuple of 41 value kinds (10 for the third variable): 13 binary operators x kind x kind, !, chains; 8 index-read forms; index assignment container x index x value, assignment to literals' hashes and arrays, append; 13 member / iteration forms (field, missing and unexported field, value / pointer method, method with argument, nested field through nil pointer, index then field, field called, loops); 8 call forms (0-3 arguments, block, user function with too few / too many arguments, chained call); 40 built-in helper forms (len, raw, htmlEscape, jsEscape, toJSON, truncate with option kinds, range / between / until, groupBy, contentFor / contentOf, partial, inspect, debug, env, inflections) and 9 sink forms: about 175k cells exhaustively; plus 33 expression forms composed to depth two (3 267 composed forms as output tag / condition / loop iterable) with kinds drawn by seeded simulation (15k quick / 400k thorough cells). Oracle on the real code: Render returns output or an error; no panic, no hang. distinct_nontrivial = distinct (form, kinds) cells."
 	c.Assume("one representative Go value per kind name (harness registry); values themselves are decided by C06, C07, C11")
 	run := func(raw json.RawMessage) { c04Run(c, raw) }
 	if c.ReplayPath != "" {
@@ -201,6 +201,15 @@ func checkC04(c *Ctx) error {
 		if _, err = c.mustTLC("GenKinds/"+fam, TLCOpts{Module: "GenKinds", Cfg: "GenKinds." + fam + ".cfg", Workers: 8, Seed: c.Seed, Timeout: 30 * time.Minute}, true, pool.feed); err != nil {
 			break
 		}
+	}
+	// beyond the matrices: expression forms composed to depth two (outer(a := (inner(a, c)), b)) as
+	// output tag, condition and loop iterable, kinds drawn by seeded simulation
+	if err == nil {
+		n := 1500
+		if c.Thorough() {
+			n = 40000
+		}
+		_, err = c.mustTLC("GenKinds/nested", TLCOpts{Module: "GenKinds", Cfg: "GenKinds.nested.cfg", Workers: 1, Simulate: n, Depth: 4, Seed: c.Seed, Timeout: 30 * time.Minute}, false, pool.feed)
 	}
 	pool.close()
 	if err == nil {
